@@ -92,7 +92,8 @@ def r1(ctx, F):
     et = strip_payload(place_term(efl, {'l': 0, 'proj': []}, 0))
     size = F.consts.get('protocol::FrameHeader::SIZE', {}).get('val')
     if et[0] != 'array':
-        ctx.bad('C20.R1', 'encode:shape', 'FrameHeader::encode does not return a byte array built element by element', loc(enc, enc.lo))
+        # (not a violation: the layout is written in a way the table extraction does not read - e.g. filled by copy_from_slice)
+        ctx.undecided('C20.R1', 'FrameHeader::encode does not return a byte array literal built element by element: layout table not extracted')
         return
     enc_table = {}
     for k, t in enumerate(et[1]):
@@ -167,21 +168,23 @@ def r2(ctx, F):
     otherwise = None
     for bi in cfg.reachable():
         t = b.blocks[bi]['term']
-        if t['k'] == 'switch' and t['on']['k'] != 'const' and all(o.kind == 'param' and o.key == 1 for o in fl.origins(t['on'])):
+        if t['k'] == 'switch' and t['on']['k'] != 'const' and fl.origins(t['on']) and all(o.kind == 'param' and o.key == 1 for o in fl.origins(t['on'])) and b.local_ty(t['on']['p']['l']) == 'u8':
             for v, tgt in t['targets']:
                 table[v] = tgt
             otherwise = t['otherwise']
     if not table:
         ctx.missing('C20.R2', 'from_u8: switch on the value')
 
+    carriers = return_carriers(b)
+
     def result_of(tgt):
-        # follow gotos to the block assigning _0
+        # follow gotos to the block assigning the returned value
         seen = set()
         cur = tgt
         while cur not in seen:
             seen.add(cur)
             for st in b.blocks[cur]['stmts']:
-                if st['dst']['l'] == 0 and st['rv']['k'] == 'agg':
+                if st['dst']['l'] in carriers and not st['dst']['proj'] and st['rv']['k'] == 'agg' and st['rv'].get('vname') in ('Ok', 'Err'):
                     if st['rv']['vname'] == 'Ok':
                         tm = term_of(fl, st['rv']['ops'][0])
                         return ('Ok', tm[2] if tm[0] == 'adt' else '?')
